@@ -39,3 +39,37 @@ Print Assumptions C13_legacy_refuted.
 Theorem C13_legacy_name_never_the_host : forall host port, domain_legacy (host ++ colon :: port) <> host.
 Proof. exact domain_legacy_refuted. Qed.
 Print Assumptions C13_legacy_name_never_the_host.
+
+(* the complete characterisation of the name, for EVERY address string (no shape hypothesis): either the address is bracketed
+   and the name is the bracket's content, or it is not and the name is the text before the last colon, or there is no colon
+   and the name is the address *)
+Theorem C13_domain_complete : forall addr,
+  (exists v6 r, addr = lbr :: v6 ++ rbr :: r /\ no_rbr v6 /\ domain_of addr = v6)
+  \/ (~ bracketed addr /\
+      ((exists h p, addr = h ++ colon :: p /\ no_colon p /\ domain_of addr = h)
+       \/ (no_colon addr /\ domain_of addr = addr))).
+Proof. exact domain_complete. Qed.
+Print Assumptions C13_domain_complete.
+
+Theorem C13_domain_is_substring : forall addr, exists pre post, addr = pre ++ domain_of addr ++ post.
+Proof. exact domain_is_substring. Qed.
+Print Assumptions C13_domain_is_substring.
+
+Theorem C13_domain_unclosed_bracket : forall h port,
+  no_rbr (h ++ colon :: port) -> no_colon port -> domain_of (lbr :: h ++ colon :: port) = lbr :: h.
+Proof. exact domain_unclosed_bracket. Qed.
+Print Assumptions C13_domain_unclosed_bracket.
+
+Theorem C13_domain_drops_port : forall addr h p,
+  ~ bracketed addr -> addr = h ++ colon :: p -> no_colon p -> domain_of addr = h.
+Proof. exact domain_drops_port. Qed.
+Print Assumptions C13_domain_drops_port.
+
+(* non-vacuity: one address of each shape, evaluated ("[::1]:3868", "[ab:38", "::1:38", "ab") *)
+Theorem C13_domain_shapes :
+  domain_of [x5b;x3a;x3a;x31;x5d;x3a;x33;x38;x36;x38] = [x3a;x3a;x31] /\
+  domain_of [x5b;x61;x62;x3a;x33;x38] = [x5b;x61;x62] /\
+  domain_of [x3a;x3a;x31;x3a;x33;x38] = [x3a;x3a;x31] /\
+  domain_of [x61;x62] = [x61;x62].
+Proof. exact domain_shapes. Qed.
+Print Assumptions C13_domain_shapes.
